@@ -48,6 +48,7 @@ Proof. apply removelast_last. Qed.
 
 Section Loop.
   Variable N : binop -> option binop.
+  Variable C : bool.
   Variable E : env.
   Variable st0 : state.
 
@@ -58,11 +59,165 @@ Section Loop.
     E l = Some (adv st0 K) -> no_break B = true ->
     let o1 := K ++ SLabel l :: B ++ [SJump None k l None] in
     let o2 := K ++ [SLabel l; SLoop k (SNo :: B ++ [SNo])] in
-    adv st0 o2 = adv st0 o1 /\ lenv st0 o2 = lenv st0 o1 /\ sem N E brk st0 o2 = sem N E brk st0 o1.
+    adv st0 o2 = adv st0 o1 /\ lenv st0 o2 = lenv st0 o1 /\ sem N C E brk st0 o2 = sem N C E brk st0 o1.
   Proof.
     intros HE Hnb o1 o2. unfold o1, o2.
     autorewrite with struct. cbn [app]. autorewrite with struct.
     split; [reflexivity|]. split; [reflexivity|].
-    f_equal. rewrite HE. rewrite (no_break_irrel N E (Some (real (adv (adv st0 K) B))) brk B Hnb). reflexivity.
+    f_equal. rewrite HE. rewrite (no_break_irrel N C E (Some (real (adv (adv st0 K) B))) brk B Hnb). reflexivity.
   Qed.
 End Loop.
+
+(* ------------------------------------------------------------------------------------------ *)
+(* the scan *)
+
+Lemma simple_no_break s : simple_s s = true -> no_break_s s = true.
+Proof. destruct s; cbn; auto; discriminate. Qed.
+
+Lemma firstn_S_nth {A} (l : list A) n x : nth_error l n = Some x -> firstn (S n) l = firstn n l ++ [x].
+Proof.
+  revert n; induction l as [|y t IH]; intros [|n] H; cbn in *; try discriminate.
+  - now inversion H.
+  - f_equal. now apply IH.
+Qed.
+
+Lemma no_break_app a b : no_break (a ++ b) = no_break a && no_break b.
+Proof. apply forallb_app. Qed.
+
+Section LoopPass.
+  Variable N : binop -> option binop.
+  Variable C : bool.
+  Variable E : env.
+  Variable st0 : state.
+  Variable G : guards.
+  Variable f : list stmt.
+  Hypothesis Gdiff : g_diff G = true.
+  Hypothesis Gtime : g_loop_time G = true.
+  Hypothesis Hflat : is_flat f = true.
+  Hypothesis Hcons : consistent E st0 f.
+
+  Record inv (pre : list stmt) (out : list (nat * stmt)) : Prop := {
+    inv_adv : adv st0 (map snd out) = adv st0 pre;
+    inv_lenv : lenv st0 (map snd out) = lenv st0 pre;
+    inv_sem : sem N C E None st0 (map snd out) = sem N C E None st0 pre;
+    inv_nb : no_break (map snd out) = true;
+    inv_lab : forall j s l, In (j, s) out -> nth_error f j = Some (SLabel l) -> s = SLabel l }.
+
+  Lemma inv_push pre out s t :
+    inv pre out -> f = pre ++ s :: t -> inv (pre ++ [s]) (out ++ [(length pre, s)]).
+  Proof.
+    intros [Ha Hl Hs Hn Hb] Hf.
+    assert (Hnth : nth_error f (length pre) = Some s).
+    { rewrite Hf, nth_error_app2, Nat.sub_diag by lia. reflexivity. }
+    assert (Hsimple : no_break_s s = true).
+    { apply simple_no_break. unfold is_flat in Hflat. rewrite forallb_forall in Hflat. apply Hflat.
+      rewrite Hf. apply in_or_app. right. now left. }
+    split.
+    - rewrite map_app, !adv_app, Ha. reflexivity.
+    - rewrite map_app, !lenv_app, Hl, Ha. reflexivity.
+    - rewrite map_app, !sem_app, Hs, Ha. reflexivity.
+    - rewrite map_app, no_break_app, Hn. cbn. now rewrite Hsimple.
+    - intros j s' l Hin Hj. apply in_app_or in Hin as [Hin|[Heq|[]]]; [eauto|].
+      inversion Heq; subst j s'. rewrite Hnth in Hj. now inversion Hj.
+  Qed.
+
+  Lemma inv_step pre out s t :
+    inv pre out -> f = pre ++ s :: t ->
+    inv (pre ++ [s]) (loop_step G (label_index f) (intr_indices f) out (length pre) s).
+  Proof.
+    intros Hinv Hf. pose proof (inv_push pre out s t Hinv Hf) as Hinv1.
+    set (i := length pre) in *. set (out1 := out ++ [(i, s)]) in *.
+    unfold loop_step. fold out1.
+    destruct (jmp_of G (label_index f) (fun _ => 0) s) as [j|] eqn:Hj; [|exact Hinv1].
+    destruct (g_loop_time G && negb (is_none (j_time j))) eqn:Ht; [exact Hinv1|].
+    destruct (i <? j_dest j); [exact Hinv1|].
+    destruct (find_pos (j_dest j) (map fst out1) 0) as [pos|] eqn:Hpos; [|exact Hinv1].
+    destruct (g_loop_intr G && existsb _ (intr_indices f)); [exact Hinv1|].
+    (* the jump *)
+    unfold jmp_of in Hj. destruct s as [| | | | | d k l tm | | |]; try discriminate.
+    rewrite Gdiff in Hj. destruct d as [d|]; [discriminate|]. cbn in Hj.
+    destruct (label_index f l) as [dest|] eqn:Hli; [|discriminate].
+    inversion Hj; subst j; clear Hj. cbn [j_dest j_time j_kind] in *.
+    rewrite Gtime in Ht. destruct tm as [tm|]; [discriminate|]. clear Ht.
+    apply label_index_spec in Hli.
+    (* the label in the output *)
+    apply find_pos_spec in Hpos as (q & -> & Hq). cbn [Nat.add] in *.
+    rewrite nth_error_map in Hq. destruct (nth_error out1 q) as [[dj sd]|] eqn:Hout; [|discriminate].
+    cbn in Hq. inversion Hq; subst dj; clear Hq.
+    assert (sd = SLabel l) by (eapply (inv_lab _ _ Hinv1); eauto using nth_error_In). subst sd.
+    pose proof (nth_error_split _ _ _ Hout) as Hsplit.
+    set (K' := firstn q out1) in *. set (R := skipn (S q) out1) in *.
+    assert (HR : exists R', R = R' ++ [(i, SJump None k l None)]).
+    { destruct (exists_last (l := R)) as (R' & r & HR).
+      - intros ->. unfold out1 in Hsplit. change (K' ++ [(dest, SLabel l)]) with (K' ++ [(dest, SLabel l)]) in Hsplit.
+        apply app_inj_tail in Hsplit as [_ Hx]. discriminate.
+      - exists R'. rewrite HR in Hsplit. unfold out1 in Hsplit.
+        rewrite app_comm_cons, app_assoc in Hsplit. apply app_inj_tail in Hsplit as [_ Hx]. now rewrite HR, Hx. }
+    destruct HR as (R' & HR).
+    rewrite (firstn_S_nth _ _ _ Hout). fold K'. rewrite HR.
+    rewrite map_app. cbn [map snd]. rewrite removelast_snoc.
+    assert (Hmap1 : map snd out1 = map snd K' ++ SLabel l :: map snd R' ++ [SJump None k l None]).
+    { rewrite Hsplit, HR, map_app. cbn [map snd]. now rewrite map_app. }
+    assert (Hpre : lenv st0 f = lenv st0 (pre ++ [SJump None k l None]) ++ lenv (adv st0 (pre ++ [SJump None k l None])) t).
+    { rewrite Hf. change (SJump None k l None :: t) with ([SJump None k l None] ++ t). rewrite app_assoc. apply lenv_app. }
+    assert (HE : E l = Some (adv st0 (map snd K'))).
+    { apply Hcons. rewrite Hpre. apply in_or_app. left. rewrite <- (inv_lenv _ _ Hinv1), Hmap1. apply lenv_in_app_label. }
+    pose proof (inv_nb _ _ Hinv1) as Hnb1. rewrite Hmap1, no_break_app in Hnb1.
+    apply andb_true_iff in Hnb1 as [HnbK HnbR]. change (SLabel l :: map snd R' ++ [SJump None k l None])
+      with ([SLabel l] ++ map snd R' ++ [SJump None k l None]) in HnbR.
+    rewrite !no_break_app in HnbR. apply andb_true_iff in HnbR as [_ HnbR]. apply andb_true_iff in HnbR as [HnbB _].
+    destruct (loop_step_equiv N C E st0 (map snd K') l (map snd R') k None HE HnbB) as (Ea & El & Es).
+    assert (Hmap2 : map snd ((K' ++ [(dest, SLabel l)]) ++ [(i, SLoop k (SNo :: map snd R' ++ [SNo]))])
+                    = map snd K' ++ [SLabel l; SLoop k (SNo :: map snd R' ++ [SNo])]).
+    { rewrite !map_app. cbn [map snd]. now rewrite <- app_assoc. }
+    split.
+    - rewrite Hmap2, Ea, <- Hmap1. apply (inv_adv _ _ Hinv1).
+    - rewrite Hmap2, El, <- Hmap1. apply (inv_lenv _ _ Hinv1).
+    - rewrite Hmap2, Es, <- Hmap1. apply (inv_sem _ _ Hinv1).
+    - rewrite Hmap2, no_break_app, HnbK. cbn. rewrite andb_true_r.
+      unfold no_break in HnbB. rewrite forallb_app, HnbB. reflexivity.
+    - intros j s' l' Hin Hj. apply in_app_or in Hin as [Hin|[Heq|[]]].
+      + eapply (inv_lab _ _ Hinv1); eauto. rewrite Hsplit. apply in_app_or in Hin as [Hin|[Heq|[]]].
+        * apply in_or_app. now left.
+        * apply in_or_app. right. left. exact Heq.
+      + inversion Heq; subst j s'. exfalso.
+        assert (Hnth : nth_error f i = Some (SJump None k l None)).
+        { rewrite Hf. unfold i. rewrite nth_error_app2, Nat.sub_diag by lia. reflexivity. }
+        rewrite Hnth in Hj. discriminate.
+  Qed.
+
+  Lemma loop_go_inv : forall rest pre out,
+    f = pre ++ rest -> inv pre out ->
+    inv f (loop_go G (label_index f) (intr_indices f) out (length pre) rest).
+  Proof.
+    induction rest as [|s t IH]; intros pre out Hf Hinv; cbn.
+    - rewrite app_nil_r in Hf. now rewrite Hf.
+    - replace (S (length pre)) with (length (pre ++ [s])) by (rewrite app_length; cbn; lia).
+      apply IH.
+      + rewrite <- app_assoc. exact Hf.
+      + eapply inv_step; eauto.
+  Qed.
+
+  Theorem loop_pass_correct :
+    adv st0 (loop_pass G f) = adv st0 f /\
+    lenv st0 (loop_pass G f) = lenv st0 f /\
+    sem N C E None st0 (loop_pass G f) = sem N C E None st0 f /\
+    no_break (loop_pass G f) = true.
+  Proof.
+    assert (H0 : inv [] []) by (split; try reflexivity; intros j s l []).
+    pose proof (loop_go_inv f [] [] eq_refl H0) as [Ha Hl Hs Hn _].
+    unfold loop_pass. cbn [length] in *. auto.
+  Qed.
+End LoopPass.
+
+Theorem loop_pass_canon N C G f :
+  g_diff G = true -> g_loop_time G = true -> is_flat f = true -> well_labelled f ->
+  well_labelled (loop_pass G f) /\ canon_of N C (loop_pass G f) = canon_of N C f /\ no_break (loop_pass G f) = true.
+Proof.
+  intros Gd Gt Hflat Hwl.
+  destruct (loop_pass_correct N C (lookup (lenv st0 f)) st0 G f Gd Gt Hflat (well_labelled_consistent f Hwl))
+    as (Ha & Hl & Hs & Hn).
+  repeat split; auto.
+  - unfold well_labelled. now rewrite Hl.
+  - unfold canon_of. now rewrite Hl, Hs.
+Qed.
